@@ -98,6 +98,9 @@ func (h *harness) judge(o *outcome) []failure {
 	if o.Held != nil {
 		// the parked exchange was abandoned afterwards: its reservation is gone too
 		gone, _ := diffSets(confirmedOnly(o.HeldBefore), confirmedOnly(o.HeldAfter))
+		if committed && !sameIDs(gone, o.Log.fundedIDs) {
+			fail("host-reservation-leak", "a formation abandoned after the host sent its inputs, while another exchange committed, left %d host output(s) unavailable although the committed exchange funded %d", len(gone), len(o.Log.fundedIDs))
+		}
 		if len(gone) > 0 && !committed {
 			fail("host-reservation-leak", "a formation abandoned after the host sent its inputs left %d host output(s) locked", len(gone))
 			releaseIDs(w.H, gone)
